@@ -30,6 +30,7 @@ type sched struct {
 	abort    interface{} // engine-level abort raised inside a non-main thread
 	crash    *goPanic    // Go panic that escaped a non-main goroutine (= process death)
 	switches int
+	preempts int
 	deadlock bool
 }
 
@@ -143,7 +144,15 @@ func (e *Engine) pickNext(from *thread, symbolic bool) *thread {
 	if !symbolic || len(cands) == 1 {
 		return cands[0]
 	}
+	// context-switch bound: staying on the current thread is free, pre-empting it at a yield costs one unit of
+	// the budget; with the budget used up yields stop forking
+	if from.canRun() && s.preempts >= e.switchBudget {
+		return from
+	}
 	i := e.choose(len(cands), func(i int) Term { return Bool(true) })
+	if from.canRun() && cands[i] != from {
+		s.preempts++
+	}
 	e.schedLog = append(e.schedLog, cands[i].id)
 	return cands[i]
 }
@@ -500,6 +509,7 @@ func init() {
 	I("time.Sleep", func(e *Engine, fr *frame, a []Value) Value { e.quiesceOthersOnce(); return nil })
 	I("runtime.Gosched", func(e *Engine, fr *frame, a []Value) Value { e.quiesceOthersOnce(); return nil })
 	rtIntrinsics["Yield"] = func(e *Engine, fr *frame, a []Value) Value { e.yield(strVal(a[0])); return nil }
+	rtIntrinsics["SwitchBudget"] = func(e *Engine, fr *frame, a []Value) Value { e.switchBudget = a[0].(Term).Int(); return nil }
 	rtIntrinsics["Quiesce"] = func(e *Engine, fr *frame, a []Value) Value { e.quiesce(); return nil }
 	rtIntrinsics["Threads"] = func(e *Engine, fr *frame, a []Value) Value {
 		if e.sch == nil {
